@@ -259,9 +259,11 @@ class Renderer(object):
                     sep = b"," + (self.ws() if r.random() < 0.7 else b"")
                     out += sep.join(render_string(x, f, r) for x in items)
                 else:
-                    inner = (b"," + (b" " if r.random() < 0.7 else b"")).join(render_string(x, f, r) for x in items)
+                    # (the separators are chosen before joining: an item may itself contain ", ")
                     if f.get("tabs_cr") and r.random() < 0.3:
-                        inner = b" " + inner.replace(b", ", b",\n  ") + b"\n"
+                        inner = b" " + b",\n  ".join(render_string(x, f, r) for x in items) + b"\n"
+                    else:
+                        inner = (b"," + (b" " if r.random() < 0.7 else b"")).join(render_string(x, f, r) for x in items)
                     out += b"(" + inner + b")"
             else:
                 inner = self.entries(node[1], True, indent + 2)
